@@ -608,6 +608,12 @@ func (w *world) execMerge(g *reg, c *cmd) error {
 	g.dead = true
 	g.inbox = nil
 	g.logf("#%d STORE merges region %d into %d", w.evNo, g.id, tg.id)
+	for _, t := range g.ops {
+		if t != c.t { // for every operator but the merge itself the disappearance of the region is foreign
+			t.foreign = true
+			t.fkinds["region-merged-away"] = true
+		}
+	}
 	var owner *opTrack
 	if c.t != nil {
 		owner = c.t.pair
